@@ -20,6 +20,14 @@ CHECKS = {
          "For each sampled session the loss point is enumerated over every byte offset (end-of-stream and persistent read error) and every write index (write error); each run is checked for prompt error return of the in-flight call, errors from all later calls, no truncated success, and process survival (a panic in any goroutine kills the worker and is attributed to the run).",
          "Trusts the device/transport models; 'promptly' is 4 read delays + latency + one poll quantum; one known finding (stale get-prompt inside the retry window) is listed in known-findings.json.",
          "deterministic simulation with loss-fault enumeration (eof/readerr after byte k for every k, write error at every write), crash attribution per run", "5/C06"),
+ "C07": ("exploration",
+         "Seeded search over 9 connection states at Close x 3 transport close behaviours x read delays (zero-grace .. graceful) x second Close x every same-instant order of reader/closer/helper/operation hook points x descheduling faults; hang detection is exact (no enabled goroutine, no timer), goroutine leaks are read from the bubble's stacks, panics kill the worker and are attributed; a free-running -race leg looks for unsynchronised access.",
+         "Trusts the controller's lock model (implLock, queue lock) and the SimTransport close behaviours; NETCONF close states are in the NETCONF leg; the race leg re-runs by seed (not schedule-exact).",
+         "deterministic simulation: seeded interleaving of hook points + sched-hold and close-behaviour faults; separate race-detector leg", "5/C07"),
+ "C20": ("exploration",
+         "Every step inside the real queue's methods is a yield point; a seeded controller explores producer/consumer interleavings; histories are checked for linearizability against a list model with porcupine, plus conservation, depth and deadlock-freedom; all sequential histories up to length 6/7 are enumerated; a -race stress leg runs the same two goroutines free.",
+         "Trusts porcupine and the list model; one producer, one consumer as stated.",
+         "deterministic simulation of a 2-goroutine queue workload + porcupine linearizability check; exhaustive short sequential histories; race-detector stress leg", "5/C20"),
 }
 
 NOT_YET = {}  # id -> reason (filled while the framework is being built)
